@@ -280,6 +280,14 @@ func (f *folder) evalInstr(env map[ssa.Value]fval, mem map[*ssa.Alloc]fval, in s
 		v := f.val(env, x.X)
 		v.t = x.Type()
 		env[x] = v
+	case *ssa.MakeInterface:
+		// a constant boxed into an interface keeps its value (only used for formatting operands)
+		v := f.val(env, x.X)
+		if v.k != nil {
+			env[x] = v
+		} else {
+			env[x] = top
+		}
 	case *ssa.MakeClosure:
 		if g, ok := x.Fn.(*ssa.Function); ok {
 			env[x] = fval{fn: g, t: x.Type()}
@@ -300,6 +308,22 @@ func (f *folder) evalInstr(env map[ssa.Value]fval, mem map[*ssa.Alloc]fval, in s
 			if best.k != nil && best.k.Kind() == constant.Int {
 				best.t = x.Type()
 				env[x] = best
+			} else {
+				env[x] = top
+			}
+			return
+		}
+		if bi, ok := x.Call.Value.(*ssa.Builtin); ok && bi.Name() == "append" && len(x.Call.Args) == 2 {
+			a, b := f.val(env, x.Call.Args[0]), f.val(env, x.Call.Args[1])
+			la, okA := a.cv.(*ListV)
+			lb, okB := b.cv.(*ListV)
+			if a.isNil {
+				la, okA = &ListV{T: x.Type()}, true
+			}
+			if okA && okB {
+				nl := &ListV{T: x.Type()}
+				nl.Elems = append(append(nl.Elems, la.Elems...), lb.Elems...)
+				env[x] = fval{cv: nl, t: x.Type()}
 			} else {
 				env[x] = top
 			}
@@ -566,6 +590,50 @@ func libTransfer(fn *ssa.Function, args []fval) (fval, error) {
 	case "strings.IndexRune":
 		if r, ok := argInt(1); ok && r < 0 {
 			return fval{k: constant.MakeInt64(-1), t: types.Typ[types.Int]}, nil
+		}
+	case "strings.Join":
+		// doc: Join concatenates the elements of its first argument to create a single string, sep between elements.
+		if len(args) == 2 && args[1].k != nil && args[1].k.Kind() == constant.String {
+			if l, ok := args[0].cv.(*ListV); ok {
+				var parts []string
+				for _, e := range l.Elems {
+					s, ok := asStr(e)
+					if !ok {
+						return top, fmt.Errorf("strings.Join over non-constant elements")
+					}
+					parts = append(parts, s)
+				}
+				return fval{k: constant.MakeString(strings.Join(parts, constant.StringVal(args[1].k))), t: types.Typ[types.String]}, nil
+			}
+		}
+	case "fmt.Sprintf", "fmt.Sprint":
+		// only plain %s / %d / %v of constant strings and integers
+		if name == "fmt.Sprintf" && len(args) == 2 && args[0].k != nil && args[0].k.Kind() == constant.String {
+			if l, ok := args[1].cv.(*ListV); ok {
+				format := constant.StringVal(args[0].k)
+				var vals []any
+				for _, e := range l.Elems {
+					cv, ok := e.(*CVal)
+					if !ok {
+						return top, fmt.Errorf("fmt.Sprintf with non-constant operands")
+					}
+					switch cv.V.Kind() {
+					case constant.String:
+						vals = append(vals, constant.StringVal(cv.V))
+					case constant.Int:
+						n, _ := constant.Int64Val(cv.V)
+						vals = append(vals, n)
+					default:
+						return top, fmt.Errorf("fmt.Sprintf with unsupported operand")
+					}
+				}
+				for i := 0; i+1 < len(format); i++ {
+					if format[i] == '%' && !strings.ContainsRune("sdv%", rune(format[i+1])) {
+						return top, fmt.Errorf("fmt.Sprintf verb not modelled")
+					}
+				}
+				return fval{k: constant.MakeString(fmt.Sprintf(format, vals...)), t: types.Typ[types.String]}, nil
+			}
 		}
 	case "slices.Index", "slices.Contains":
 		// doc: Index returns the index of the first occurrence of v in s, or -1 if not present; Contains reports whether v is present.
